@@ -44,11 +44,11 @@ Theorem C15_all_equal_refuted :
 Proof. exact all_equal_refuted. Qed.
 Print Assumptions C15_all_equal_refuted.
 
-(* ... with inference on, a document containing an empty list is refused (finding
-   C15/all_equal/error-no-merge-key-for-empty-list). *)
-Theorem C15_all_equal_empty_list_refuted : m3 el_d el_d el_d = Err.
-Proof. exact empty_list_refused. Qed.
-Print Assumptions C15_all_equal_empty_list_refuted.
+(* ... with inference on, a document containing an empty list used to be refused (finding
+   C15/all_equal/error-no-merge-key-for-empty-list): FIXED in /repo, it merges with itself. *)
+Theorem C15_all_equal_empty_list : m3 el_d el_d el_d = Ok (Some el_d).
+Proof. exact empty_list_merges. Qed.
+Print Assumptions C15_all_equal_empty_list.
 
 (* What does hold of merge3(d,d,d) (partial, same fragment): every non-mapping, non-null value of d on a
    null-free path survives. *)
